@@ -184,6 +184,33 @@ pub fn explore_all() -> bool {
     std::env::var("LCV_TOLERATE_ALL").is_ok()
 }
 
+/// Runs one case; a panic escaping the property (a client abort outside an oracle that expects it, or a harness bug)
+/// becomes a failure with a normalised signature instead of killing the worker.
+pub fn run_case<P: Property>(case: &P::Case, obs: &mut Obs) -> Result<(), Failure> {
+    let r = std::panic::catch_unwind(std::panic::AssertUnwindSafe(|| P::run(case, obs)));
+    match r {
+        Ok(r) => r,
+        Err(_) => {
+            let (msg, loc) = take_last_panic().unwrap_or_default();
+            let file = loc.rsplit('/').next().unwrap_or("").split(':').next().unwrap_or("").to_string();
+            let mut norm = String::new();
+            let mut last_digit = false;
+            for ch in msg.chars().take(100) {
+                if ch.is_ascii_digit() {
+                    if !last_digit {
+                        norm.push('#');
+                    }
+                    last_digit = true;
+                } else {
+                    last_digit = false;
+                    norm.push(ch);
+                }
+            }
+            Err(Failure::new(format!("panic/{} @{}", norm, file), format!("{} at {}", msg, loc)))
+        }
+    }
+}
+
 pub fn run_worker<P: Property>(tier: Tier, seed: u64, shard: u32, shards: u32, cases_override: Option<u32>) -> Value {
     let t0 = Instant::now();
     let known = Known::load(P::ID);
@@ -212,7 +239,7 @@ pub fn run_worker<P: Property>(tier: Tier, seed: u64, shard: u32, shards: u32, c
                 };
                 let mut obs = Obs::default();
                 obs.label("corpus");
-                let r = P::run(&case, &mut obs);
+                let r = run_case::<P>(&case, &mut obs);
                 let mut a = acc.borrow_mut();
                 a.absorb(&case, obs);
                 if let Err(fl) = r {
@@ -249,7 +276,7 @@ pub fn run_worker<P: Property>(tier: Tier, seed: u64, shard: u32, shards: u32, c
         let known_sigs = known.sigs.clone();
         let result = runner.run(&P::strategy(tier), move |case| {
             let mut obs = Obs::default();
-            let r = P::run(&case, &mut obs);
+            let r = run_case::<P>(&case, &mut obs);
             let counting = !*failed2.borrow();
             match r {
                 Ok(()) => {
@@ -286,7 +313,7 @@ pub fn run_worker<P: Property>(tier: Tier, seed: u64, shard: u32, shards: u32, c
                 // re-run the minimal case to get its own failure (shrinking may end on a different message)
                 STRICT.with(|s| *s.borrow_mut() = false);
                 let mut obs = Obs::default();
-                let f = match P::run(&case, &mut obs) {
+                let f = match run_case::<P>(&case, &mut obs) {
                     Err(f) => f,
                     Ok(()) => last_fail.borrow().clone().unwrap_or(Failure::new("nondeterministic", "minimal case passed on re-run")),
                 };
@@ -326,7 +353,7 @@ pub fn replay<P: Property>(path: &str) -> Value {
     let case_v = if v.get("case").is_some() { v["case"].clone() } else { v };
     let case: P::Case = serde_json::from_value(case_v.clone()).expect("case shape");
     let mut obs = Obs::default();
-    match P::run(&case, &mut obs) {
+    match run_case::<P>(&case, &mut obs) {
         Ok(()) => json!({"property": P::ID, "result": "pass", "labels": obs.labels}),
         Err(f) => json!({"property": P::ID, "result": "fail", "signature": f.signature, "message": f.message,
                           "known": known.is_known(&f.signature), "case": case_v}),
